@@ -64,6 +64,11 @@ fn by_deleting_spaces(a: &str, b: &str) -> bool {
 impl Prop for C14 {
     type Case = Case;
     const ID: &'static str = "C14";
+    const FUZZ_TARGET: Option<&'static str> = Some("ws_corrupt");
+    const FUZZ_RUNS: u64 = 500000;
+    fn fuzz_decode(bytes: &[u8]) -> Option<Case> {
+        crate::fuzzdec::c14(bytes)
+    }
     const RULE: &'static str = "clean texts of 0-6 words x 1-5 characters (code-point mode: arbitrary non-whitespace code points; grapheme mode: closed-pool clusters) x (p_ins, p_del) from {0, 0.05, 0.3, 0.7, 1}^2 minus (0,0) plus uniform draws x seed x use_graphemes x corrupted part x byte tokenizer with generated prefix/suffix; run through preprocessing(WhitespaceCorruption) and train_task(WhitespaceCorrection). Oracle: untouched part identical, same non-whitespace sequence, output clean, repair(operations(corrupted, original)) recovers the original, one label per character plus -1 on special positions, determinism in (text, seed) also on a fresh instance, p_del = 0 / p_ins = 0 laws, (0,0) rejected. Non-trivial: the output differs from the input by >= 1 insertion and >= 1 deletion and the text has a multi-byte character. Distinct = distinct serialised case.";
     const ESSENTIAL: &'static [&'static str] = &["inserted", "deleted", "inserted+deleted", "p_del_0", "p_ins_0", "unchanged", "graphemes", "code_points", "prefix_suffix", "rejected_0_0"];
 
